@@ -83,6 +83,39 @@ def run(ctx):
             an1 = teneva.ANOVA(I, y, order=1, seed=1)
             ctx.check(np.abs(an1(grid) - v1.reshape(-1)).max() <= 1e-10 * (1 + np.abs(v1).max()) and abs(an1.f0 - fr(row['f0'])) <= 1e-12 * (1 + abs(fr(row['f0']))),
                       'ANOVA:call1', 'ANOVA(order=1)(I) / f0 differs from the exact order-1 model', case=case)
+            # ---- the model lives on the OBSERVED domain: index labels may be re-labelled by any increasing map and stored in any
+            #      integer type that holds them (uint8 / int8 / int16 / int32): same tensors
+            mul_, add_ = [(1, 0), (7, 3), (11, 40), (5, 100), (2, -1)][int(rng.integers(5))]
+            dt = [np.uint8, np.int8, np.int16, np.int32, np.uint16][int(rng.integers(5))]
+            Ir = I * mul_ + add_
+            if add_ == -1:
+                # labels at the very top of the type's range (max, max-2, ...): any arithmetic on labels would wrap
+                Ir = np.iinfo(dt).max - 2 * (I.max() - I)
+            if Ir.max() <= np.iinfo(dt).max and Ir.min() >= 0:
+                Ir = Ir.astype(dt)
+                for order_, vref in ((1, v1), (2, v2)):
+                    try:
+                        Yr = teneva.anova(Ir, y, r=6, order=order_, noise=0., seed=2)
+                    except Exception as ex:
+                        ctx.violation('anova:labels', 'ANOVA order %d on index labels %d*i+%d stored as %s raised %s: %s' % (order_, mul_, add_, np.dtype(dt), type(ex).__name__, ex), case=case)
+                        continue
+                    ctx.case(key=('labels', smp, order_, mul_, add_, str(np.dtype(dt))), nontrivial=True)
+                    okr = F.is_wellformed(Yr, shp) and (order_ == 2 and max(tt_ranks_of(v2) + [1]) > 6 or np.abs(F.dense(Yr) - vref).max() <= 1e-7 * (1 + np.abs(vref).max()))
+                    ctx.check(okr, 'anova:labels', 'ANOVA order %d changes when the index labels are %d*i+%d stored as %s (deviation %.3g)'
+                              % (order_, mul_, add_, np.dtype(dt), np.abs(F.dense(Yr) - vref).max() if F.is_wellformed(Yr, shp) else -1), case=case)
+            # ---- one ANOVA object used repeatedly: every cores() request is answered from the fitted model alone
+            if d >= 3:
+                first = F.dense(teneva.ANOVA(I, y, order=2, seed=1).cores(r=6, noise=0.))       # a fresh object's answer
+                ao = teneva.ANOVA(I, y, order=2, seed=1)
+                for kw_ in ([dict(r=6, only_near=True), dict(r=2)] if len(smp) % 2 else [dict(r=2), dict(r=6), dict(r=6, only_near=True), dict(r=3)]):
+                    try:
+                        ao.cores(noise=0., **kw_)        # (only_near itself is outside the property: on the pinned tree it
+                    except Exception:                      #  mis-numbers the pairs for d >= 3 and may raise; see DESIGN 12.3)
+                        pass
+                again = F.dense(ao.cores(r=6, noise=0.))
+                ctx.case(key=('object-history', smp), nontrivial=True)
+                ctx.check(np.abs(first - again).max() <= 1e-9 * (1 + np.abs(first).max()), 'ANOVA:history',
+                          'ANOVA.cores(r=6) after other cores() requests (only_near=True, other ranks) on the same object differs from a fresh object\'s answer by %.3g' % np.abs(first - again).max(), case=case)
             # ---- order 2
             need = max(tt_ranks_of(v2) + [1])
             for r in (2, 4, 6):
